@@ -66,7 +66,7 @@ def truth_job(vc):
               and res.final_time == 160 and res.agent_id == 7)
 
 
-@obligation("C10", "step_frames", ensures=["O-C10-truth-first", "O-C10-estimation-independent", "O-C10-no-truth-writes", "O-C10-other-agents"],
+@obligation("C10", "step_frames", ensures=["O-C10-truth-first", "O-C10-estimation-independent", "O-C10-no-truth-writes", "O-C10-other-agents", "O-C10-truth-events", "O-C10-current-agents"],
             fns=[SC + "Scenario.stepForward"], mode="Z", assumes=RAY, bounded="2-3 targets, 2 sensors, 2 engines",
             note="in a step every truth job is created and joined before any estimation or tasking code runs; the truth part of the step is the same sequence of operations with estimation/tasking on or off and whatever the engines return; the estimation/tasking part never assigns an attribute of a target agent and touches sensor agents only through updateInfo/pruneTimeBiasEvents (pointing state, not trajectory); adding another agent adds one job for it and leaves the other agents' jobs unchanged")
 def step_frames(vc):
@@ -87,6 +87,25 @@ def step_frames(vc):
     jobs2 = [norm(e) for e in SF.entries(truth, "propagate.enqueue")]
     jobs3 = [norm(e) for e in SF.entries(three, "propagate.enqueue")]
     vc.ensure("O-C10-other-agents", len(jobs3) == len(jobs2) + 1 and all(j in jobs3 for j in jobs2))
+    # maneuver events reach the TRUTH agents whether or not estimation runs and whether or not the filter is told about them ("planned")
+    def truth_deliveries(truth_only):
+        lg = []
+        evs = {"AGENT_PROPAGATION": [SF.Event(lg, "planned-maneuver", 2, planned=True), SF.Event(lg, "unplanned-maneuver", 1, planned=False), SF.Event(lg, "planned-2", 1, planned=True)]}
+        SF.run_step(vc, events=evs, truth_only=truth_only)
+        return [(e[1], repr(e[2])) for e in lg if repr(e[2]).startswith("T")]
+    want = [("planned-maneuver", "T2"), ("unplanned-maneuver", "T1"), ("planned-2", "T1")]
+    # consecutive steps on one scenario: every step builds its jobs for the agents registered NOW (an id that was removed and given to a new agent
+    # between two steps propagates the new agent, and an agent that was removed is not propagated any more)
+    scn2, lg2 = SF.run_step(vc, truth_only=True)
+    n0 = len(lg2)
+    old, fresh = scn2.target_agents[1], SF.Agent(lg2, "T", 1)
+    scn2.target_agents[1] = fresh
+    del scn2.target_agents[2]
+    scn2.stepForward()
+    later = [e[1][1] for e in lg2[n0:] if e[0] == "propagate.enqueue"]
+    vc.ensure("O-C10-current-agents", any(a is fresh for a in later) and not any(a is old for a in later) and not any(getattr(a, "simulation_id", None) == 2 for a in later)
+              and len(later) == 3)
+    vc.ensure("O-C10-truth-events", sorted(truth_deliveries(True)) == sorted(want) and sorted(truth_deliveries(False)) == sorted(want))
 
 
 def _attr_writes(fn_node):
